@@ -88,7 +88,7 @@ def check(prop, tier, replay=None):
     for pid, p in gen.wide_groups(rng, 4 if tier == "quick" else 40):
         jobs.append({"id": "C11-" + pid, "text": p.render(), "scenarios": [0]})
     # one statement kind written k and 2k times in one property: the cost of the larger project is bounded by the smaller one's
-    for k in ((11,) if tier == "quick" else (11, 12)):
+    for k in ((12,) if tier == "quick" else (11, 12, 13)):
         for kk in (k, 2 * k):
             for kind, text in gen.repeated_statements(kk):
                 jobs.append({"id": "C11-rep-%s-k%d" % (kind, kk), "text": text, "scenarios": [0], "pair": "C11-rep-%s-k%d" % (kind, k) if kk != k else None})
